@@ -87,7 +87,11 @@ func genDetCase(c *core.Ctx, i int) detCase {
 		files := map[string]string{"page.tw": "p {{ 1 / zero }}", "errors/a.tw": "<error page A>", "errors/b.tw": "<error page B>{{ 1 + 1 }}", "ok.tw": "fine"}
 		order := [][]string{{"errors/a", "errors/b"}, {"errors/b", "errors/a"}, {"errors/a", "errors/missing"}, {"errors/a", ""}}[r.Intn(4)]
 		debugSecond := r.Intn(3) == 0
-		return detCase{map[string]any{"files": describeFiles(files), "error_pages_in_order": order, "debug_in_second_configuration": debugSecond}, func(c *core.Ctx) string {
+		debugFirst := r.Intn(2) == 0
+		if order[1] == "" {
+			order[1] = order[0] // an empty path does not unset a configured one
+		}
+		return detCase{map[string]any{"files": describeFiles(files), "error_pages_in_order": order, "debug_in_first_configuration": debugFirst, "debug_in_second_configuration": debugSecond}, func(c *core.Ctx) string {
 			if err := writeFilesFresh("c14cfg", files); err != nil {
 				return "WRITE:" + err.Error()
 			}
@@ -97,17 +101,24 @@ func genDetCase(c *core.Ctx, i int) detCase {
 				return fmt.Sprintf("body=%q err=%v", rec.body.String(), err)
 			}
 			textwire.VerifResetConfig()
-			first, err := textwire.NewTemplate(&config.Config{TemplateDir: "c14cfg", TemplateExt: ".tw", ErrorPagePath: order[0]})
+			first, err := textwire.NewTemplate(&config.Config{TemplateDir: "c14cfg", TemplateExt: ".tw", ErrorPagePath: order[0], DebugMode: debugFirst})
 			if err != nil {
 				return "LOADERR:" + err.Error()
 			}
 			obs := "first:" + respond(first) + "|again:" + respond(first)
-			textwire.VerifResetConfig()
+			// (no reset here: the second configuration is applied on top of the first, as in a running process)
 			second, err := textwire.NewTemplate(&config.Config{TemplateDir: "c14cfg", TemplateExt: ".tw", ErrorPagePath: order[1], DebugMode: debugSecond})
 			if err != nil {
 				return obs + "|LOADERR2:" + err.Error()
 			}
 			older, newer := respond(first), respond(second)
+			// the same configuration applied to a clean state gives the same again
+			textwire.VerifResetConfig()
+			if clean, cerr := textwire.NewTemplate(&config.Config{TemplateDir: "c14cfg", TemplateExt: ".tw", ErrorPagePath: order[1], DebugMode: debugSecond}); cerr == nil {
+				if fresh := respond(clean); fresh != newer {
+					c.Violation("determinism:same-files-same-configuration", fmt.Sprintf("the configuration (error page %q, debug %v) applied after another one writes %s, applied to a clean state %s", order[1], debugSecond, clipS(newer, 300), clipS(fresh, 300)), map[string]any{"error_pages_in_order": order})
+				}
+			}
 			if older != newer {
 				c.Violation("determinism:same-files-same-configuration", fmt.Sprintf("two Templates loaded from the same files write different things under the same configuration: the one loaded earlier %s, the one loaded now %s", clipS(older, 300), clipS(newer, 300)), map[string]any{"error_pages_in_order": order})
 			}
@@ -115,7 +126,11 @@ func genDetCase(c *core.Ctx, i int) detCase {
 		}}
 	case 0: // objects from the data map printed, dumped, nested, iterated
 		obj := manyKeyObject(r, 2+r.Intn(11), 2)
-		src := []string{"{{ o }}", "@dump(o)", "{{ [o, o] }}", "@dump(o, [o])", "{{ {w: o, v: 1} }}", "{{ x = o }}{{ x }}|@dump(x)", "@each(e in [o, o]){{ e }};@end", "{{ o.toString }}"}[r.Intn(8)]
+		src := []string{"{{ o }}", "@dump(o)", "{{ [o, o] }}", "@dump(o, [o])", "{{ {w: o, v: 1} }}", "{{ x = o }}{{ x }}|@dump(x)", "@each(e in [o, o]){{ e }};@end", "{{ o.toString }}",
+			"{{ o.userid }}", "@dump(o.apikey)", "{{ o[\"userid\"] }}|{{ o.userId }}", "{{ o.Userid }}{{ o.apikey }}", "{{ u = {UserID: 1, UserId: 2, USERID: 3, apiKey: 4, APIKEY: 5} }}{{ u.userid }}{{ u.apikey }}"}[r.Intn(13)]
+		for _, k := range []string{"UserID", "UserId", "USERID", "apiKey", "APIKEY", "ApiKey"} {
+			obj[k] = k
+		}
 		return detCase{map[string]any{"source": src, "object_keys": len(obj)}, func(c *core.Ctx) string {
 			return observe(textwire.EvaluateString(src, map[string]any{"o": obj}))
 		}}
@@ -134,6 +149,10 @@ func genDetCase(c *core.Ctx, i int) detCase {
 		return detCase{map[string]any{"source": src}, func(c *core.Ctx) string { return observe(textwire.EvaluateString(src, nil)) }}
 	case 2: // object literals / array literals with 2..4 failing entries
 		fails := []string{"nope1", "1 / 0", "\"x\" + 1", "nope2.y", "5.nofn()", "7 % 0", "[1][0].k"}
+		if r.Intn(3) == 0 {
+			// entries that are literals under a prefix operator of the wrong type (nothing in them is computed)
+			fails = []string{"-\"x\"", "!5", "-true", "-nil", "![1]", "-\"y\"", "!\"s\""}
+		}
 		r.Shuffle(len(fails), func(a, b int) { fails[a], fails[b] = fails[b], fails[a] })
 		n := 2 + r.Intn(3)
 		failKeys := detKeyFamilies[r.Intn(len(detKeyFamilies))]
